@@ -109,7 +109,7 @@ def run_tlc(module, cfg_text, *, workers=None, timeout=1200, env=None, extra=(),
     for mname, mtext in (extra_modules or {}).items():     # generated wrapper modules (e.g. constants given as definitions)
         with open(os.path.join(wd, mname + ".tla"), "w") as fh:
             fh.write(mtext)
-    cmd = ["java", "-XX:+UseParallelGC", "-Xmx" + (heap or "8g")]
+    cmd = ["java", "-XX:+UseParallelGC", "-Xmx" + (heap or "8g"), "-Djava.io.tmpdir=" + wd]
     if dfs:
         cmd.append("-Dtlc2.tool.queue.IStateQueue=StateDeque")
     cmd += ["-cp", TLA_JAR, "tlc2.TLC", "-metadir", os.path.join(wd, "meta"), "-noGenerateSpecTE",
@@ -308,7 +308,7 @@ def validate_traces(trace_module, traces, *, cfg_extra="", shards=None, timeout=
         tf = os.path.join(wd, "traces.json")
         with open(tf, "w") as fh:
             json.dump(ch, fh)
-        cmd = ["java", "-XX:+UseParallelGC", "-Xss16m", "-Xmx3g"]
+        cmd = ["java", "-XX:+UseParallelGC", "-Xss16m", "-Xmx3g", "-Djava.io.tmpdir=" + wd]
         if dfs:
             cmd.append("-Dtlc2.tool.queue.IStateQueue=StateDeque")
         cmd += ["-cp", TLA_JAR, "tlc2.TLC", "-metadir", os.path.join(wd, "meta"),
